@@ -112,7 +112,7 @@ def pl_frame_case(v, arrangement, N, opts):
     lazyframe = bool(opts.get("lazyframe"))
     lazy = bool(opts.get("lazy")) or bool(opts.get("drop"))
     nan = bool(opts.get("nan"))
-    df = v.plframe(arr, N, lazy=lazyframe, nan=nan)
+    df = v.plframe(arr, N, lazy=lazyframe, nan=nan, rid=bool(opts.get("drop")))
     snap = pl_snapshot(df)
     lo = v.int("aA")
     nullable, unique_a = v.bool("nullable"), v.bool("unique_a")
@@ -126,7 +126,8 @@ def pl_frame_case(v, arrangement, N, opts):
         schema = ppl.DataFrameSchema(
             {"a": ppl.Column(float, checks=[ca.build(Check)], nullable=nullable, unique=unique_a, coerce=(coerce == "col"),
                              default=(None if default is None else default)),
-             "b": ppl.Column(int, checks=[cb.build(Check)], required=req_b, default=(1 if opts.get("add_missing") else None))},
+             "b": ppl.Column(int, checks=[cb.build(Check)], required=req_b, default=(1 if opts.get("add_missing") else None)),
+             **({"_rid": ppl.Column(int)} if opts.get("drop") else {})},  # row identifiers are a declared column: they survive filter/add_missing
             strict=opts.get("strict", False), ordered=bool(opts.get("ordered")), coerce=(coerce == "schema"),
             add_missing_columns=bool(opts.get("add_missing")), unique=opts.get("unique"), drop_invalid_rows=bool(opts.get("drop")))
     depth = {"SO": ValidationDepth.SCHEMA_ONLY, "DO": ValidationDepth.DATA_ONLY, "SAD": ValidationDepth.SCHEMA_AND_DATA}.get(opts.get("depth"))
@@ -139,7 +140,7 @@ def pl_frame_case(v, arrangement, N, opts):
 
     o = H.outcome(lambda: run(df))
     asserts = [("channel", v.holds(channel_ok(o))), ("input_unchanged", pl_equal(v, df, snap))]
-    facts = dict(kind=o["kind"], reason=o.get("reason"), msg=o.get("msg"), container="LazyFrame" if lazyframe else "DataFrame")
+    facts = dict(kind=o["kind"], reason=o.get("reason"), _msg=o.get("msg"), container="LazyFrame" if lazyframe else "DataFrame")
     parsing = bool(coerce or opts.get("default") or opts.get("add_missing") or opts.get("strict") == "filter" or opts.get("drop"))
     if opts.get("oracle") and not parsing and not nan:
         # documented semantics (the pandas oracle is backend neutral): which part applies is decided by the validation depth —
@@ -158,8 +159,28 @@ def pl_frame_case(v, arrangement, N, opts):
         schema_ok, data_ok = z3.If(rq, parts[0][0], parts[1][0]), z3.If(rq, parts[0][1], parts[1][1])
         eff = opts.get("depth") or ("SO" if lazyframe else "SAD")
         oracle = {"SO": schema_ok, "DO": data_ok, "SAD": z3.And(schema_ok, data_ok)}[eff]
-        asserts.append(("verdict" if opts.get("depth") in (None, "SAD") and not lazyframe else "depth/" + ("default_lazyframe_schema_only" if opts.get("depth") is None else eff), v.iff(o["kind"] == "accept", oracle)))
+        claim = v.iff(o["kind"] == "accept", oracle)
+        if eff == "SAD":
+            asserts.append(("verdict", claim))
+        asserts.append(("depth/" + (eff if opts.get("depth") else ("default_lazyframe_schema_only" if lazyframe else "default_dataframe_full_depth")), claim))
         facts["depth"] = eff
+    if opts.get("drop") and not nan:
+        asserts += drop_asserts(v, o, df, snap, arr, N, dict(nullable=nullable, unique_a=unique_a, lo=lo, ca=ca, cb=cb, joint=opts.get("unique"),
+                                                                coerce=coerce, depth_data=(depth is not None or not lazyframe) and opts.get("depth") != "SO"))
+    if opts.get("compare_eager") and lazy:
+        oe = H.outcome(lambda: run(df, schema, False))
+        facts["eager"] = oe["kind"]
+        asserts.append(("lazy_eager_agree", v.holds((oe["kind"] == "accept") == (o["kind"] == "accept"))))
+        asserts.append(("lazy/channel", v.holds(channel_ok(oe) and oe["kind"] in ("accept", "SchemaError") and o["kind"] in ("accept", "SchemaErrors"))))
+        if oe["kind"] == "SchemaError" and o["kind"] == "SchemaErrors":
+            key = lambda e: (str(e.reason_code), str(getattr(e.schema, "name", None)))  # noqa: E731
+            asserts.append(("eager_error_among_lazy", v.holds(key(oe["exc"]) in [key(x) for x in o["exc"].schema_errors])))
+    if o["kind"] == "SchemaErrors":
+        from collections import Counter
+
+        exc = o["exc"]
+        cnt = Counter(str(x.reason_code).split(".")[-1] for x in exc.schema_errors)
+        asserts.append(("report/error_counts", v.holds(dict(cnt) == {str(k).split(".")[-1]: n for k, n in dict(exc.error_counts).items()})))
     if o["kind"] == "accept":
         out = o["out"]
         asserts.append(("kind_preserved", v.holds(same_kind(out, df))))
@@ -178,3 +199,394 @@ def pl_frame_case(v, arrangement, N, opts):
             if o3["kind"] == "accept" and H._is_pl(o3["out"]):
                 asserts.append(("fixpoint_identity", pl_equal(v, o3["out"], osnap, same_class=False)))
     return dict(obs=o, asserts=asserts, facts=facts)
+
+
+def drop_asserts(v, o, df, snap, arr, N, P):
+    """C11 on polars: with drop_invalid_rows the result holds exactly the input rows (by position) on which every row-level
+    constraint holds — nullability, uniqueness (polars reports every duplicate), column checks, joint uniqueness."""
+    asserts = [("drop/channel", v.holds(channel_ok(o))), ("drop/returns", v.holds(o["kind"] == "accept"))]
+    if o["kind"] != "accept" or not H._is_pl(o["out"]):
+        return asserts
+    out = o["out"]
+    kinds = dict(arr)
+    cells = {c: v.cells(f"{c}_", k, N, True) for c, k in arr}
+    bad = [F] * N
+    if P["depth_data"]:
+        bad = []
+        for i in range(N):
+            b = []
+            if "a" in cells:
+                xa, na = cells["a"]
+                dup = zor_(O.eq_cell(xa, na, i, j) for j in range(N) if j != i)
+                b += [z3.And(z3.Not(v.z(P["nullable"])), na[i]), z3.And(v.z(P["unique_a"]), dup), z3.And(z3.Not(na[i]), z3.Not(P["ca"].pred(v, xa[i])))]
+            if "b" in cells:
+                xb, nb = cells["b"]
+                b += [nb[i], z3.And(z3.Not(nb[i]), z3.Not(P["cb"].pred(v, xb[i])))]
+            if P["joint"]:
+                sub = [c for c in P["joint"] if c in cells]
+                b.append(zor_(z3.And(*[O.eq_cell(cells[c][0], cells[c][1], i, j) for c in sub]) for j in range(N) if j != i))
+            bad.append(z3.Or(*b) if b else F)
+    if v.sym:
+        if len(out.present) != N:
+            return asserts + [("drop/exact_rows", v.holds(False))]
+        pres = list(out.present)
+        asserts.append(("drop/no_invalid_row_survives", v.holds(z3.And(*[z3.Implies(p, z3.Not(b)) for p, b in zip(pres, bad)]) if N else T)))
+        asserts.append(("drop/no_valid_row_dropped", v.holds(z3.And(*[z3.Implies(z3.Not(b), p) for p, b in zip(pres, bad)]) if N else T)))
+        # surviving cells equal the input cells (up to the requested coercion), original order: slot-wise by construction
+        ok = []
+        for k, c in out.cols.items():
+            ref = dict((x[0], x) for x in snap[1]).get(k)
+            if ref is None:
+                continue
+            for i in range(N):
+                ok.append(z3.Implies(pres[i], _cell_eq(c.vals[i], c.nulls[i], None if c.nans is None else c.nans[i], ref[1][i], ref[2][i], None if ref[3] is None else ref[3][i])))
+        asserts.append(("drop/values_unchanged", v.holds(z3.And(*ok) if ok else T)))
+    else:
+        keep = [not v.vals.term(b) for b in bad]
+        odf = out.collect() if isinstance(out, real_pl.LazyFrame) else out
+        rids = odf["_rid"].to_list() if "_rid" in odf.columns else []
+        asserts.append(("drop/no_invalid_row_survives", all(keep[i] for i in rids)))
+        asserts.append(("drop/no_valid_row_dropped", all(i in rids for i in range(N) if keep[i])))
+        ref = snap[1].collect() if isinstance(snap[1], real_pl.LazyFrame) else snap[1]
+        same = rids == sorted(rids)
+        for k in odf.columns:
+            if k in ref.columns and same:
+                a = [H.norm_val(x) if not (isinstance(x, float) and x != x) else "NaN" for x in odf[k].to_list()]
+                b = [H.norm_val(x) if not (isinstance(x, float) and x != x) else "NaN" for x in ref[k].gather(rids).to_list()]
+                same = same and a == b
+        asserts.append(("drop/values_unchanged", same))
+    return asserts
+
+
+# ------------------------------------------------------------------ Column schema called directly on a polars frame
+def pl_column_case(v, N, opts):
+    """ppl.Column(...).validate(frame): container kind (C04), channel (C06), verdict at the effective depth"""
+    a_kind = "int" if opts.get("coerce") else "float"
+    lazyframe = bool(opts.get("lazyframe"))
+    df = v.plframe([("a", a_kind), ("b", "int")], N, lazy=lazyframe)
+    snap = pl_snapshot(df)
+    lo = v.int("aA")
+    col = ppl.Column(float, Check.ge(lo), name="a", nullable=v.bool("nullable"), unique=v.bool("unique_a"), coerce=bool(opts.get("coerce")),
+                     default=v.int("dflt") if opts.get("default") else None)
+    o = H.outcome(lambda: col.validate(df, lazy=bool(opts.get("lazy"))))
+    asserts = [("channel", v.holds(channel_ok(o))), ("input_unchanged", pl_equal(v, df, snap))]
+    facts = dict(kind=o["kind"], reason=o.get("reason"), _msg=o.get("msg"), container="LazyFrame" if lazyframe else "DataFrame")
+    if o["kind"] == "accept":
+        out = o["out"]
+        facts["out_kind"] = H.pl_kind(out) if H._is_pl(out) else type(out).__name__
+        asserts.append(("kind_preserved", v.holds(same_kind(out, df))))
+    return dict(obs=o, asserts=asserts, facts=facts)
+
+
+# ------------------------------------------------------------------ head / tail on polars (C20)
+def pl_subsample_case(v, N, which, opts):
+    """validate(D, head=h, tail=t): verdict of the frame made of the first h and the last t rows, each selected row once,
+    duplicates in the data preserved; the whole of D is returned."""
+    lazyframe = bool(opts.get("lazyframe"))
+    df = v.plframe([("a", "float"), ("b", "int")], N, lazy=lazyframe)
+    snap = pl_snapshot(df)
+    lo = v.int("aA")
+    nullable, unique_a = v.bool("nullable"), v.bool("unique_a")
+    h = v.int("h", 0, N) if "head" in which else None
+    t = v.int("t", 0, N) if "tail" in which else None
+    ca = O.CheckSpec("ge", True, a=lo)
+    with warnings.catch_warnings():
+        warnings.simplefilter("ignore")
+        schema = ppl.DataFrameSchema({"a": ppl.Column(float, ca.build(Check), nullable=nullable, unique=unique_a), "b": ppl.Column(int)})
+    kw = {}
+    if h is not None:
+        kw["head"] = h
+    if t is not None:
+        kw["tail"] = t
+    ns = v.int("ns", 0, N) if "sample" in which else None
+    if ns is not None:
+        kw["sample"] = ns
+        kw["random_state"] = 7
+
+    def run():
+        with config_context(validation_depth=ValidationDepth.SCHEMA_AND_DATA):
+            if v.sym:
+                return schema.validate(df, **kw)
+            with H.pl_sample_stub(v.vals):
+                return schema.validate(df, **kw)
+
+    o = H.outcome(run)
+    xa, na = v.cells("a_", "float", N, True)
+    xb, nb = v.cells("b_", "int", N, True)
+    sel = []
+    for i in range(N):
+        s = []
+        if h is not None:
+            s.append(z3.IntVal(i) < v.z(h))
+        if t is not None:
+            s.append(z3.IntVal(i) >= N - v.z(t))
+        if ns is not None:
+            s.append(z3.Bool(f"plsample!7!{i}"))
+        sel.append(z3.Or(*s) if s else T)
+    viol = []
+    for i in range(N):
+        dup = zor_(z3.And(sel[j], O.eq_cell(xa, na, i, j)) for j in range(N) if j != i)
+        viol.append(z3.And(sel[i], z3.Or(z3.And(z3.Not(v.z(nullable)), na[i]), z3.And(v.z(unique_a), dup), z3.And(z3.Not(na[i]), z3.Not(xa[i] >= v.z(lo))), nb[i])))
+    asserts = [("subsample/channel", v.holds(channel_ok(o))), ("subsample/input_unchanged", pl_equal(v, df, snap))]
+    asserts.append(("subsample/verdict", v.iff(o["kind"] == "accept", z3.Not(zor_(viol)))))
+    if o["kind"] == "accept" and H._is_pl(o["out"]):
+        asserts.append(("subsample/returns_whole_object", pl_equal(v, o["out"], snap, same_class=False)))
+    return dict(obs=o, asserts=asserts, facts=dict(kind=o["kind"], reason=o.get("reason"), _msg=o.get("msg"), which=list(which)))
+
+
+# ------------------------------------------------------------------ one definition on pandas and on polars (C08, whole schema)
+def pl_equiv_case(v, arrangement, N, opts):
+    """the same backend-neutral spec built with pandera.pandas and pandera.polars, the same table (same cell variables) as a
+    pandas DataFrame and as a polars DataFrame: same verdict, same failing cells, same parsed table.
+    opts: strict, ordered, coerce ('col'), a_kind, default, add_missing, unique, lazy"""
+    import pandera as pa
+
+    a_kind = opts.get("a_kind", "float")
+    kinds = dict(KINDS, a=a_kind)
+    arr = [(c, kinds[c]) for c in arrangement]
+    # pandas int64 columns cannot hold nulls: int columns are null-free on both sides
+    pdf = v.frame(arr, N)
+    pldf = v.plframe([(c, k, k != "int") for c, k in arr], N)
+    lo = v.int("aA")
+    nullable, unique_a = v.bool("nullable"), v.bool("unique_a")
+    req_b = True if opts.get("b_required_concrete", True) else v.bool("req_b")
+    default = v.int("dflt") if opts.get("default") else None
+    ca = O.CheckSpec(opts.get("check_a", "ge"), True, a=lo, b=lo)
+    cb = O.CheckSpec("isin", True, set=[1, 2, 3])
+    coerce = opts.get("coerce") == "col"
+
+    def mk(mod):
+        with warnings.catch_warnings():
+            warnings.simplefilter("ignore")
+            return mod.DataFrameSchema(
+                {"a": mod.Column(float, checks=[ca.build(Check)], nullable=nullable, unique=unique_a, coerce=coerce, default=default),
+                 "b": mod.Column(int, checks=[cb.build(Check)], required=req_b, default=(1 if opts.get("add_missing") else None))},
+                strict=opts.get("strict", False), ordered=bool(opts.get("ordered")), add_missing_columns=bool(opts.get("add_missing")), unique=opts.get("unique"))
+
+    lazy = bool(opts.get("lazy"))
+    o_pd = H.outcome(lambda: mk(pa).validate(pdf, lazy=lazy))
+    o_pl = H.outcome(lambda: mk(ppl).validate(pldf, lazy=lazy))
+    facts = dict(pandas=o_pd["kind"], polars=o_pl["kind"], reason_pd=o_pd.get("reason"), reason_pl=o_pl.get("reason"), _msg=o_pl.get("msg"))
+    asserts = [("backend_equiv/schema_verdict", v.holds((o_pd["kind"] == "accept") == (o_pl["kind"] == "accept")))]
+    if o_pd["kind"] == "accept" and o_pl["kind"] == "accept":
+        asserts.append(("backend_equiv/parsed_table", _tables_equal(v, o_pd["out"], o_pl["out"], N)))
+    if lazy and o_pd["kind"] == "SchemaErrors" and o_pl["kind"] == "SchemaErrors":
+        asserts.append(("backend_equiv/failing_cells", _failing_cells_equal(v, o_pd["fc"], o_pl["fc"], N)))
+    return dict(obs=None, asserts=asserts, facts=facts)
+
+
+def _tables_equal(v, a, b, N):
+    """pandas result vs polars result: same columns in the same order, same rows, same cells (null = null; numbers by value)"""
+    import pandas as real_pd
+
+    import symframe
+
+    if isinstance(a, symframe.DataFrame) and isinstance(b, (sympl.DataFrame, sympl.LazyFrame)):
+        acols = [(str(k), c) for k, c in a._cols]
+        bcols = list(b.cols.items())
+        if [k for k, _ in acols] != [k for k, _ in bcols] or len(a.present) != len(b.present):
+            return v.holds(False)
+        terms = []
+        for i in range(len(a.present)):
+            terms.append(a.present[i] == b.present[i])
+            for (_, ca_), (_, cb_) in zip(acols, bcols):
+                terms.append(z3.Implies(a.present[i], _cell_eq(ca_.vals[i], ca_.nulls[i], None, cb_.vals[i], cb_.nulls[i], None if cb_.nans is None else cb_.nans[i])))
+        return v.holds(z3.And(*terms) if terms else T)
+    if isinstance(a, real_pd.DataFrame) and isinstance(b, (real_pl.DataFrame, real_pl.LazyFrame)):
+        bb = b.collect() if isinstance(b, real_pl.LazyFrame) else b
+        if [str(c) for c in a.columns] != list(bb.columns) or len(a) != bb.height:
+            return False
+        ra = [[H.norm_val(x) for x in row] for row in a.itertuples(index=False, name=None)]
+        rb = [[H.norm_val(x) for x in row] for row in bb.rows()]
+        return ra == rb
+    return v.holds(False)
+
+
+def _failing_cells_equal(v, fa, fb, N):
+    """row-level entries of the two failure-case tables name the same (column, row position, value) cells; pandas labels are
+    the default RangeIndex here, so label == position"""
+    import pandas as real_pd
+
+    import symframe
+
+    def norm_check(c):
+        c = str(c).split("(")[0]
+        return c
+
+    row_checks = ("not_nullable", "field_uniqueness", "greater_than_or_equal_to", "less_than_or_equal_to", "isin", "not_equal_to")
+    if isinstance(fa, real_pd.DataFrame):
+        A = sorted((str(r["column"]), norm_check(r["check"]), H.norm_val(r["index"])) for _, r in fa.iterrows() if norm_check(r["check"]) in row_checks)
+        fbb = fb
+        B = sorted((str(r["column"]), norm_check(r["check"]), H.norm_val(r["index"])) for r in fbb.iter_rows(named=True) if norm_check(r["check"]) in row_checks)
+        return A == B
+    # symbolic: for every (column, check, position) the presence in one table is equivalent to the presence in the other
+    def entries(fc, shim_pl):
+        out = {}
+        if shim_pl:
+            cols, pres = fc.cols, fc.present
+            getv = lambda k, r: cols[k].vals[r]  # noqa: E731
+            getn = lambda k, r: cols[k].nulls[r]  # noqa: E731
+        else:
+            cols, pres = {k: c for k, c in fc._cols}, fc.present
+            getv = lambda k, r: cols[k].vals[r]  # noqa: E731
+            getn = lambda k, r: cols[k].nulls[r]  # noqa: E731
+        for r in range(len(pres)):
+            col, chk = getv("column", r), getv("check", r)
+            col = col.as_string() if z3.is_expr(col) and z3.is_string_value(col) else str(col)
+            chk = chk.as_string() if z3.is_expr(chk) and z3.is_string_value(chk) else str(chk)
+            chk = norm_check(chk)
+            if chk not in row_checks:
+                continue
+            for i in range(N):
+                idx = getv("index", r)
+                hit = z3.And(pres[r], z3.Not(getn("index", r)), (idx == i) if z3.is_expr(idx) else z3.BoolVal(idx == i))
+                out[(col, chk, i)] = z3.Or(out.get((col, chk, i), F), hit)
+        return out
+
+    if not (isinstance(fa, symframe.DataFrame) and isinstance(fb, (sympl.DataFrame, sympl.LazyFrame))):
+        return v.holds(False)
+    ea, eb = entries(fa, False), entries(fb, True)
+    keys = set(ea) | set(eb)
+    return v.holds(z3.And(*[ea.get(k, F) == eb.get(k, F) for k in keys]) if keys else T)
+
+
+def equiv_cases(tier):
+    out = []
+    for N in ((2,) if tier == "quick" else (1, 2, 3)):
+        for arr in ARRS:
+            for strict in (False, True):
+                for ordered in (False, True):
+                    if tier == "quick" and ordered and arr not in (["a", "b"], ["b", "a"]):
+                        continue
+                    o = dict(strict=strict, ordered=ordered, b_required_concrete=False)
+                    out.append((_tid("EQ", arr, N, o), pl_equiv_case, (arr, N, o)))
+        for o in (dict(unique=["a", "b"]), dict(lazy=True), dict(lazy=True, unique=["a", "b"]), dict(coerce="col", a_kind="int"), dict(default=True),
+                  dict(check_a="le"), dict(check_a="ne", lazy=True)):
+            out.append((_tid("EQ", ["a", "b"], N, o), pl_equiv_case, (["a", "b"], N, o)))
+        out.append((_tid("EQ", ["a"], N, dict(add_missing=True)), pl_equiv_case, (["a"], N, dict(add_missing=True))))
+        out.append((_tid("EQ", ["b", "a"], N, dict(strict="filter")), pl_equiv_case, (["x", "b", "a"], N, dict(strict="filter"))))
+    return out
+
+
+# ------------------------------------------------------------------ template families per property
+ARRS = (["a", "b"], ["b", "a"], ["a"], ["b"], ["a", "b", "x"], ["x", "a", "b"])
+
+
+def _tid(prefix, arr, N, opts):
+    return f"PL/{prefix}/{''.join(arr)}/" + ("/".join(f"{k}={v if not isinstance(v, list) else '+'.join(v)}" for k, v in opts.items()) or "plain") + f"/N={N}"
+
+
+def verdict_cases(tier):
+    """documented semantics at full depth on a polars DataFrame (C08 stage 2 / C01-like), label level included"""
+    out = []
+    for N in ((2,) if tier == "quick" else (1, 2, 3)):
+        for arr in ARRS:
+            for strict in (False, True):
+                for ordered in (False, True):
+                    if tier == "quick" and ordered and arr not in (["a", "b"], ["b", "a"]):
+                        continue
+                    o = dict(oracle=True, strict=strict, ordered=ordered, b_required_concrete=False)
+                    out.append((_tid("V", arr, N, o), pl_frame_case, (arr, N, o)))
+        out.append((_tid("V", ["a", "b"], N, dict(unique="a+b")), pl_frame_case, (["a", "b"], N, dict(oracle=True, unique=["a", "b"]))))
+        for chk in ("le", "ne", "in_range") if tier != "quick" else ("le",):
+            o = dict(oracle=True, check_a=chk)
+            if chk != "in_range":
+                out.append((_tid("V", ["a", "b"], N, o), pl_frame_case, (["a", "b"], N, o)))
+    return out
+
+
+def depth_cases(tier):
+    """C18 on polars: explicit SCHEMA_ONLY / DATA_ONLY / SCHEMA_AND_DATA and the container-dependent default"""
+    out = []
+    N = 2
+    for lazyframe in (False, True):
+        for depth in (None, "SO", "DO", "SAD"):
+            for arr in (["a", "b"], ["a"], ["b", "a"]) if tier == "quick" else ARRS:
+                o = dict(oracle=True, lazyframe=lazyframe, depth=depth, b_required_concrete=False, fixpoint=False)
+                out.append((_tid("DEPTH", arr, N, o), pl_frame_case, (arr, N, o)))
+        o = dict(oracle=True, lazyframe=lazyframe, depth="DO", strict=True, fixpoint=False)
+        out.append((_tid("DEPTH", ["a", "b", "x"], N, o), pl_frame_case, (["a", "b", "x"], N, o)))
+        o = dict(oracle=True, lazyframe=lazyframe, lazy=True, fixpoint=False)
+        out.append((_tid("DEPTH", ["a", "b"], N, o), pl_frame_case, (["a", "b"], N, o)))
+    return out
+
+
+def parse_cases(tier):
+    """C03 on polars: parsing options and their combinations; fixpoint assertions"""
+    out = []
+    N = 2
+    combos = []
+    for coerce, a_kind in ((None, "float"), ("col", "int"), ("schema", "int")):
+        for default in (False, True):
+            for add_missing, arr in ((False, ["a", "b"]), (True, ["a"]), (False, ["a", "b", "x"])):
+                for strict in (False, "filter"):
+                    for drop in (False, True):
+                        combos.append((arr, dict(coerce=coerce, a_kind=a_kind, default=default, add_missing=add_missing, strict=strict, drop=drop)))
+    for arr, c in combos:
+        n_on = sum([c["coerce"] is not None, c["default"], c["add_missing"], c["strict"] == "filter", c["drop"]])
+        if tier == "quick" and n_on > 2:
+            continue
+        if n_on == 0:
+            continue
+        for lazyframe in ((False,) if tier == "quick" else (False, True)):
+            o = {k: v for k, v in c.items() if v not in (None, False)}
+            if lazyframe:
+                o.update(lazyframe=True, depth="SAD")
+            out.append((_tid("P", arr, N, o), pl_frame_case, (arr, N, o)))
+    for nan_opts in (dict(default=True, nan=True), dict(coerce="col", a_kind="float", nan=True), dict(drop=True, nan=True), dict(nan=True, lazy=True)):
+        out.append((_tid("P", ["a", "b"], N, nan_opts), pl_frame_case, (["a", "b"], N, nan_opts)))
+    return out
+
+
+def drop_cases(tier):
+    out = []
+    for N in ((2,) if tier == "quick" else (1, 2, 3)):
+        for o in (dict(drop=True), dict(drop=True, unique=["a", "b"]), dict(drop=True, coerce="col", a_kind="int"), dict(drop=True, check_a="le"),
+                  dict(drop=True, lazyframe=True), dict(drop=True, lazyframe=True, depth="SAD")):
+            out.append((_tid("DROP", ["a", "b"], N, o), pl_frame_case, (["a", "b"], N, dict(o, fixpoint=False))))
+        out.append((_tid("DROP", ["a", "b", "x"], N, dict(drop=True, strict="filter")), pl_frame_case, (["a", "b", "x"], N, dict(drop=True, strict="filter", fixpoint=False))))
+    return out
+
+
+def lazy_cases(tier):
+    out = []
+    for N in ((2,) if tier == "quick" else (1, 2, 3)):
+        for arr in (["a", "b"], ["a"], ["a", "b", "x"]):
+            for extra in (dict(), dict(strict=True), dict(unique=["a", "b"]), dict(coerce="col", a_kind="int")):
+                if arr != ["a", "b"] and extra and "strict" not in extra:
+                    continue
+                o = dict(lazy=True, compare_eager=True, fixpoint=False, **extra)
+                out.append((_tid("LZ", arr, N, o), pl_frame_case, (arr, N, o)))
+    return out
+
+
+def standard_cases(tier):
+    """shapes shared by C04 (input unchanged, container kind) and C06 (channel) on polars"""
+    out = []
+    N = 2
+    for lazyframe in (False, True):
+        for o in (dict(), dict(lazy=True), dict(coerce="col", a_kind="int"), dict(default=True), dict(strict="filter"), dict(drop=True), dict(unique=["a", "b"]),
+                  dict(unique=["a", "b"], lazy=True), dict(nan=True), dict(add_missing=True)):
+            for arr in ((["a", "b"], ["a", "b", "x"], ["a"]) if (o.get("strict") or o.get("add_missing")) else (["a", "b"],)):
+                oo = dict(o, lazyframe=lazyframe, fixpoint=False)
+                if lazyframe:
+                    oo["depth"] = "SAD"
+                out.append((_tid("K", arr, N, oo), pl_frame_case, (arr, N, oo)))
+        for o in (dict(), dict(lazy=True), dict(coerce=True), dict(default=True), dict(coerce=True, lazy=True)):
+            oo = dict(o, lazyframe=lazyframe)
+            out.append((f"PL/COL/" + ("/".join(f"{k}={v}" for k, v in oo.items())) + f"/N={N}", pl_column_case, (N, oo)))
+    return out
+
+
+def subsample_cases(tier):
+    out = []
+    for N in ((2, 3) if tier == "quick" else (1, 2, 3, 4)):
+        for which in (["head"], ["tail"], ["head", "tail"], []):
+            for lazyframe in (False, True):
+                if tier == "quick" and lazyframe and which != ["head"]:
+                    continue
+                out.append((f"PL/SUB/{'+'.join(which) or 'none'}/lazyframe={int(lazyframe)}/N={N}", pl_subsample_case, (N, which, dict(lazyframe=lazyframe))))
+    for N in (2, 3):
+        for which in (["sample"], ["head", "sample"], ["head", "tail", "sample"]):
+            out.append((f"PL/SUB/{'+'.join(which)}/lazyframe=0/N={N}", pl_subsample_case, (N, which, {})))
+    return out
